@@ -265,6 +265,12 @@ type vWorld struct {
 	fIss     vURL
 	sty      int
 	order    map[string][]string // insertion order per table, for a stable encoding
+	// histories: a round after the first one on the same handler (op `again`: the handler
+	// configuration cimd/pre/dcr/init is the one of the case's `auth` record)
+	again     bool
+	round     int  // 0-based index of the round in its case
+	asChanged bool // this round asks another authorization server for metadata than the last round that got that far
+	afterOK   bool // an earlier round of the case installed a token source
 }
 
 func joinURLs(l []vURL) string {
@@ -370,6 +376,11 @@ func (w *vWorld) encode() string {
 	if w.fetch == "R" {
 		f = "R|" + w.fState + "|" + w.fIss.tok()
 	}
+	if w.again {
+		return fmt.Sprintf("again st=%d u=%s hm=%s ch=%s hdr=%s prm=%s asm=%s reg=%s tok=%s f=%s sty=%d",
+			w.status, w.u.tok(), bit(w.hm), ch, hdr,
+			w.encodeMap("prm", w.prm), w.encodeMap("asm", w.asm), w.encodeMap("reg", w.reg), tok, f, w.sty)
+	}
 	return fmt.Sprintf("auth st=%d cimd=%s pre=%s dcr=%s init=%s u=%s hm=%s ch=%s hdr=%s prm=%s asm=%s reg=%s tok=%s f=%s sty=%d",
 		w.status, bit(w.cimd), pre, bit(w.dcr), bit(w.init), w.u.tok(), bit(w.hm), ch, hdr,
 		w.encodeMap("prm", w.prm), w.encodeMap("asm", w.asm), w.encodeMap("reg", w.reg), tok, f, w.sty)
@@ -411,7 +422,7 @@ func decodeResp(kind, s string) (vResp, error) {
 
 func decodeWorld(op string) (*vWorld, error) {
 	toks := strings.Fields(op)
-	if len(toks) == 0 || toks[0] != "auth" {
+	if len(toks) == 0 || (toks[0] != "auth" && toks[0] != "again") {
 		return nil, fmt.Errorf("not an auth op")
 	}
 	kv := map[string]string{}
@@ -424,9 +435,10 @@ func decodeWorld(op string) (*vWorld, error) {
 	}
 	w := &vWorld{prm: map[string]vResp{}, asm: map[string]vResp{}, reg: map[string]vResp{}, tok: map[string][]string{}, order: map[string][]string{}}
 	var err error
+	w.again = toks[0] == "again"
 	w.status, _ = strconv.Atoi(kv["st"])
 	w.cimd, w.dcr, w.init, w.hm = kv["cimd"] == "1", kv["dcr"] == "1", kv["init"] == "1", kv["hm"] == "1"
-	if kv["pre"] != "none" {
+	if !w.again && kv["pre"] != "none" {
 		p, err := vParse(kv["pre"])
 		if err != nil {
 			return nil, err
@@ -943,18 +955,66 @@ func classifyErr(err error) string {
 	return "other:" + hxs(s)
 }
 
-func runWorld(w *vWorld) (obs string) {
-	r := &vRun{w: w, upper: w.sty%5 == 1} // mixed-case schemes only in fields that are not compared as strings
-	r.addAll()
+// vHandler is ONE AuthorizationCodeHandler and what the harness remembers of its rounds. The injected
+// http.Client and fetcher are fixed when the handler is created; they delegate to the scripted world
+// of the round in progress.
+type vHandler struct {
+	h       *AuthorizationCodeHandler
+	cfgW    *vWorld // the world of the `auth` record: the handler configuration
+	initial oauth2.TokenSource
+	seen    []oauth2.TokenSource // seen[k]: what TokenSource() returned after round k
+	cur     *vRun
+	lastAS  string // the authorization server the last round that reached one asked for metadata
+}
+
+// contactedAS returns the token of the authorization-server URL whose metadata locations the
+// observation's log asks for ("" if the round did not get that far).
+func contactedAS(obs string) string {
+	_, lg, ok := strings.Cut(obs, " log=")
+	if !ok {
+		return ""
+	}
+	as := ""
+	for _, e := range strings.Split(lg, ",") {
+		if !strings.HasPrefix(e, "G:") {
+			continue
+		}
+		f := strings.Split(e[2:], "~")
+		if len(f) != 5 {
+			continue
+		}
+		ds := strings.Split(f[4], ".")
+		switch ds[len(ds)-1] {
+		case "ao", "ai", "aoi", "aii", "aia":
+			as = strings.Join(f[:4], "~")
+			if len(ds) > 1 {
+				as += "~" + strings.Join(ds[:len(ds)-1], ".")
+			}
+		}
+	}
+	return as
+}
+
+func (hs *vHandler) RoundTrip(req *http.Request) (*http.Response, error) {
+	return hs.cur.RoundTrip(req)
+}
+
+func (hs *vHandler) fetcher(ctx context.Context, args *AuthorizationArgs) (*AuthorizationResult, error) {
+	return hs.cur.fetcher(ctx, args)
+}
+
+// newHandler creates the handler an `auth` record describes.
+func newHandler(w *vWorld) (hs *vHandler, obs string) {
 	defer func() {
 		if p := recover(); p != nil {
-			obs = "panic"
+			hs, obs = nil, "panic"
 		}
 	}()
+	hs = &vHandler{cfgW: w}
 	cfg := &AuthorizationCodeHandlerConfig{
 		RedirectURL:              "http://localhost:7777/callback",
-		AuthorizationCodeFetcher: r.fetcher,
-		Client: &http.Client{Transport: r, CheckRedirect: func(*http.Request, []*http.Request) error {
+		AuthorizationCodeFetcher: hs.fetcher,
+		Client: &http.Client{Transport: hs, CheckRedirect: func(*http.Request, []*http.Request) error {
 			return http.ErrUseLastResponse // no redirects: the policy of the injected client is out of scope
 		}},
 	}
@@ -971,15 +1031,33 @@ func runWorld(w *vWorld) (obs string) {
 		cfg.DynamicClientRegistrationConfig = &DynamicClientRegistrationConfig{Metadata: &oauthex.ClientRegistrationMetadata{
 			RedirectURIs: []string{"http://localhost:7777/callback"}, ClientName: "verif"}}
 	}
-	var initial oauth2.TokenSource
 	if w.init {
-		initial = vSentinelTS{}
-		cfg.InitialTokenSource = initial
+		hs.initial = vSentinelTS{}
+		cfg.InitialTokenSource = hs.initial
 	}
 	h, err := NewAuthorizationCodeHandler(cfg)
 	if err != nil {
-		return "config:" + hxs(err.Error())
+		return nil, "config:" + hxs(err.Error())
 	}
+	hs.h = h
+	return hs, ""
+}
+
+// round runs one Authorize call of the handler against the world w.
+func (hs *vHandler) round(w *vWorld) (obs string) {
+	if w.again {
+		c := hs.cfgW
+		w.cimd, w.pre, w.dcr, w.init = c.cimd, c.pre, c.dcr, c.init
+	}
+	w.round = len(hs.seen)
+	r := &vRun{w: w, upper: w.sty%5 == 1} // mixed-case schemes only in fields that are not compared as strings
+	r.addAll()
+	hs.cur = r
+	defer func() {
+		if p := recover(); p != nil {
+			obs = "panic"
+		}
+	}()
 	req, err := http.NewRequest(http.MethodPost, w.u.render(false), nil)
 	if err != nil {
 		return "badurl"
@@ -988,18 +1066,31 @@ func runWorld(w *vWorld) (obs string) {
 	for _, v := range w.hdr {
 		hd.Add("WWW-Authenticate", v)
 	}
+	before, _ := hs.h.TokenSource(context.Background())
 	resp := &http.Response{StatusCode: w.status, Header: hd, Body: io.NopCloser(strings.NewReader("")), Request: req}
-	err = h.Authorize(context.Background(), req, resp)
-	ts, _ := h.TokenSource(context.Background())
+	err = hs.h.Authorize(context.Background(), req, resp)
+	ts, _ := hs.h.TokenSource(context.Background())
 	inst := "0"
-	if ts != initial {
+	if ts != before {
 		inst = "1"
 	}
+	cur := strconv.Itoa(len(hs.seen))
+	if ts == hs.initial {
+		cur = "i"
+	} else {
+		for k, x := range hs.seen {
+			if x == ts {
+				cur = strconv.Itoa(k)
+				break
+			}
+		}
+	}
+	hs.seen = append(hs.seen, ts)
 	lg := "."
 	if len(r.events) > 0 {
 		lg = strings.Join(r.events, ",")
 	}
-	return "out=" + classifyErr(err) + " inst=" + inst + " log=" + lg
+	return "out=" + classifyErr(err) + " inst=" + inst + " cur=" + cur + " log=" + lg
 }
 
 // ---------------------------------------------------------------------------------------------
@@ -1008,9 +1099,21 @@ func runWorld(w *vWorld) (obs string) {
 type vGen struct {
 	rng *rand.Rand
 	w   *vWorld
+	// histories
+	honest bool    // this round is drawn from a mostly well-behaved network (so that whole flows complete)
+	base   *vWorld // the first round of the history (handler configuration, usual server URL); nil while drawing it
+	prevAS *vURL   // the authorization server the honest documents of the previous round named
 }
 
 func (g *vGen) p(pct int) bool { return g.rng.Intn(100) < pct }
+
+// hp: probability pct in a hostile round, honestPct in an honest one.
+func (g *vGen) hp(pct, honestPct int) bool {
+	if g.honest {
+		return g.p(honestPct)
+	}
+	return g.p(pct)
+}
 
 func (g *vGen) farHost() int { return 1 + g.rng.Intn(len(vFarHosts)-1) }
 
@@ -1183,11 +1286,17 @@ func (g *vGen) world() *vWorld {
 	g.w = w
 	w.sty = g.rng.Intn(60)
 	w.status = 401
-	if g.p(20) {
-		w.status = 403
+	if g.p(20) || (g.base != nil && g.p(45)) {
+		w.status = 403 // later rounds are often step-ups
 	}
 	// handler configuration
-	switch g.rng.Intn(10) {
+	cfgDraw := g.rng.Intn(10)
+	if g.base != nil {
+		cfgDraw = -1
+		w.cimd, w.pre, w.dcr, w.init = g.base.cimd, g.base.pre, g.base.dcr, g.base.init
+	}
+	switch cfgDraw {
+	case -1:
 	case 0, 1, 2:
 		w.pre = &vURL{}
 	case 3, 4, 5:
@@ -1203,7 +1312,9 @@ func (g *vGen) world() *vWorld {
 		w.cimd, w.dcr = g.p(50), true
 		w.pre = &vURL{}
 	}
-	w.init = g.p(30)
+	if g.base == nil {
+		w.init = g.p(30)
+	}
 	// the MCP server URL
 	switch {
 	case g.p(80):
@@ -1226,15 +1337,28 @@ func (g *vGen) world() *vWorld {
 	if g.p(10) {
 		w.u.slashes = 1 + g.rng.Intn(2)
 	}
-	// the authorization server the honest documents name
+	if g.base != nil && g.p(85) {
+		w.u = g.base.u // the same MCP server as in the first round
+	}
+	// the authorization server the honest documents name: in a later round the same as before, or
+	// another one (the resource moved, or somebody answers in its place)
 	as := g.safeBase()
+	if g.prevAS != nil {
+		if g.p(45) {
+			as = *g.prevAS
+		}
+	}
+	defer func(a vURL) { g.prevAS = &a }(as)
 	// challenges
 	n := []int{0, 1, 1, 1, 2, 3}[g.rng.Intn(6)]
+	if g.honest && w.status == 403 && n == 0 {
+		n = 1
+	}
 	for i := 0; i < n; i++ {
-		c := vChallenge{bearer: g.p(75), rm: vEmpty(), err: "n"}
+		c := vChallenge{bearer: g.hp(75, 95), rm: vEmpty(), err: "n"}
 		if g.p(55) {
 			switch {
-			case g.p(70):
+			case g.hp(70, 95):
 				c.rm = vAt(w.u.scheme, w.u.loop, w.u.host, 40+g.rng.Intn(3), 0)
 				if !g.p(85) {
 					c.rm = vAt("https", false, g.farHost(), 40, 0)
@@ -1246,27 +1370,27 @@ func (g *vGen) world() *vWorld {
 			}
 		}
 		switch {
-		case g.p(25) || (w.status == 403 && g.p(60)):
+		case g.p(25) || (w.status == 403 && g.hp(60, 97)):
 			c.err = "i"
 		case g.p(15):
 			c.err = "o"
 		}
 		w.ch = append(w.ch, c)
 	}
-	w.hm = g.p(3)
+	w.hm = g.hp(3, 0)
 	g.renderHeader()
 	// protected-resource metadata at each candidate
 	firstAS := []vURL{}
 	for _, c := range g.prmCandidates() {
 		var r vResp
 		switch {
-		case g.p(45):
+		case g.hp(45, 80):
 			d := &vPrmDoc{resource: c[1], as: []vURL{as}}
 			if g.p(15) {
 				d.as = append(d.as, vAt("https", false, g.farHost(), 0, 0))
 			}
 			r = vResp{code: "D", prm: d}
-		case g.p(35):
+		case g.hp(35, 8):
 			d := &vPrmDoc{resource: c[1], as: []vURL{as}}
 			switch g.rng.Intn(11) {
 			case 0:
@@ -1319,14 +1443,14 @@ func (g *vGen) world() *vWorld {
 		}
 		cands := asmCands(a)
 		hit := g.rng.Intn(len(cands) + 1) // the location that answers with a document (len = none: fall-back)
-		if g.p(25) {
+		if g.hp(25, 70) {
 			hit = 0
 		}
 		for i, m := range cands {
 			var r vResp
 			switch {
 			case i == hit:
-				r = vResp{code: "D", asm: g.asmDoc(a, 75)}
+				r = vResp{code: "D", asm: g.asmDoc(a, map[bool]int{false: 75, true: 97}[g.honest])}
 			case i < hit && g.p(85):
 				r = vResp{code: "S4"}
 			case g.p(50):
@@ -1346,7 +1470,7 @@ func (g *vGen) world() *vWorld {
 		if d.reg.kind != 'e' {
 			var r vResp
 			switch {
-			case g.p(65):
+			case g.hp(65, 92):
 				r = vResp{code: "R", regHasID: true, regMethod: []string{"n", "p", "b", "x", "."}[g.rng.Intn(5)]}
 				if g.p(30) {
 					r.regURLs = []vURL{vAt("http", true, 0, 60, 0), vAt("https", false, 1, 61, 0)}
@@ -1368,7 +1492,7 @@ func (g *vGen) world() *vWorld {
 			fails := []string{"FT", "F4", "F5", "FE", "FN", "FJ"}
 			var l []string
 			switch {
-			case g.p(60):
+			case g.hp(60, 90):
 				l = []string{"G"}
 			case g.p(30):
 				l = []string{fails[g.rng.Intn(6)], "G"}
@@ -1386,11 +1510,11 @@ func (g *vGen) world() *vWorld {
 		}
 	}
 	// the issuer pre-registered credentials are bound to
-	if w.pre != nil {
+	if w.pre != nil && g.base == nil {
 		switch {
-		case g.p(35):
+		case g.hp(35, 20):
 			*w.pre = vEmpty()
-		case g.p(60):
+		case g.hp(60, 90):
 			*w.pre = as
 			if g.p(25) {
 				if w.pre.slashes > 0 {
@@ -1411,16 +1535,16 @@ func (g *vGen) world() *vWorld {
 	// the fetcher
 	w.fIss = vEmpty()
 	switch {
-	case g.p(6):
+	case g.hp(6, 1):
 		w.fetch = "E"
 	default:
 		w.fetch = "R"
 		w.fState = "g"
-		if g.p(10) {
+		if g.hp(10, 2) {
 			w.fState = []string{"f", "e"}[g.rng.Intn(2)]
 		}
 		switch {
-		case g.p(70) && len(docs) > 0:
+		case g.hp(70, 95) && len(docs) > 0:
 			// what an honest server of the first scripted document would send
 			if strings.Contains(docs[0].flags, "i") {
 				w.fIss = docs[0].issuer
@@ -1559,6 +1683,24 @@ func flowTags(w *vWorld, obs string) []string {
 	if w.init {
 		tags = append(tags, "initial-ts")
 	}
+	switch {
+	case w.round == 1:
+		tags = append(tags, "round=2")
+	case w.round > 1:
+		tags = append(tags, "round=3+")
+	}
+	if w.asChanged {
+		tags = append(tags, "as-changed")
+	}
+	if w.afterOK {
+		tags = append(tags, "after-install")
+		if strings.Contains(obs, "inst=1") {
+			tags = append(tags, "reinstalled")
+		}
+		if strings.Contains(obs, "out=pre-iss") {
+			tags = append(tags, "pre-iss-after-install")
+		}
+	}
 	return tags
 }
 
@@ -1583,16 +1725,33 @@ func readOpsFile(p string) ([]string, error) {
 
 func runOps(out *verifOut, cs string, ops []string, tag string) {
 	out.line(cs, "reset", "ok", "reset")
+	var hs *vHandler // the handler of the case: created by `auth`, used again by `again`
 	for _, op := range ops {
 		switch {
 		case op == "reset":
-		case strings.HasPrefix(op, "auth "):
+		case strings.HasPrefix(op, "auth ") || strings.HasPrefix(op, "again "):
 			w, err := decodeWorld(op)
 			if err != nil {
 				out.line(cs, op, "bad-op", tag)
 				continue
 			}
-			obs := runWorld(w)
+			var obs string
+			if !w.again {
+				hs, obs = newHandler(w)
+			} else if hs == nil {
+				obs = "no-handler"
+			}
+			if obs == "" {
+				w.afterOK = false
+				for _, x := range hs.seen {
+					w.afterOK = w.afterOK || x != hs.initial
+				}
+				obs = hs.round(w)
+				if as := contactedAS(obs); as != "" {
+					w.asChanged = hs.lastAS != "" && hs.lastAS != as
+					hs.lastAS = as
+				}
+			}
 			out.line(cs, op, obs, append(flowTags(w, obs), tag)...)
 		case strings.HasPrefix(op, "www ") || op == "www":
 			out.line(cs, op, wwwRun(strings.Fields(op)[1:]), tag, "www")
@@ -1604,7 +1763,7 @@ func runOps(out *verifOut, cs string, ops []string, tag string) {
 	}
 }
 
-func runCorpusAndReplay(out *verifOut, prefix string) (replayed bool) {
+func runCorpusAndReplay(out *verifOut, prefixes ...string) (replayed bool) {
 	if rp := os.Getenv("VERIF_REPLAY"); rp != "" {
 		ops, err := readOpsFile(rp)
 		if err != nil {
@@ -1624,8 +1783,11 @@ func runCorpusAndReplay(out *verifOut, prefix string) (replayed bool) {
 			}
 			keep := ops[:0]
 			for _, op := range ops {
-				if op == "reset" || strings.HasPrefix(op, prefix) {
-					keep = append(keep, op)
+				for _, prefix := range prefixes {
+					if op == "reset" || strings.HasPrefix(op, prefix) {
+						keep = append(keep, op)
+						break
+					}
 				}
 			}
 			if len(keep) > 1 || (len(keep) == 1 && keep[0] != "reset") {
@@ -1656,23 +1818,36 @@ func TestVerifOAuthFlow(t *testing.T) {
 			out.line("pool", "reset", "bad-pool-parses:"+hxs(s), "reset")
 		}
 	}
-	if runCorpusAndReplay(out, "auth ") {
+	if runCorpusAndReplay(out, "auth ", "again ") {
 		return
 	}
 	n := verifN(10000, 60000)
 	rng := verifRng(15)
 	for i := 0; i < n; i++ {
+		// a history: 1-4 Authorize rounds on ONE handler, each against its own network (the
+		// authorization server named, every document and the fetcher's answer may change in between)
 		g := &vGen{rng: rng}
-		w := g.world()
-		op := w.encode()
-		// always run what a replay would run
-		w2, err := decodeWorld(op)
-		if err != nil {
-			out.line(fmt.Sprintf("f%d", i), "reset", "encode-decode:"+hxs(err.Error()), "reset")
-			continue
+		rounds := []int{1, 1, 1, 1, 1, 1, 1, 1, 1, 1, 1, 2, 2, 2, 2, 2, 2, 3, 3, 4}[rng.Intn(20)]
+		var ops []string
+		bad := false
+		for k := 0; k < rounds && !bad; k++ {
+			g.honest = rounds > 1 && g.p(map[bool]int{true: 65, false: 50}[k == 0])
+			w := g.world()
+			w.again = k > 0
+			if k == 0 {
+				g.base = w
+			}
+			op := w.encode()
+			// always run what a replay would run
+			if _, err := decodeWorld(op); err != nil {
+				out.line(fmt.Sprintf("f%d", i), "reset", "encode-decode:"+hxs(err.Error()), "reset")
+				bad = true
+			}
+			ops = append(ops, op)
 		}
-		runOps(out, fmt.Sprintf("f%d", i), []string{op}, "gen")
-		_ = w2
+		if !bad {
+			runOps(out, fmt.Sprintf("f%d", i), ops, "gen")
+		}
 	}
 }
 
